@@ -379,14 +379,18 @@ def run(ctx):
                             ctx.count("guard-around%s:" % ("" if n_around == 1 else "-around") + ("holds" if (g[0] or g[1]) else "fails"))
                             greqs.append({"op": "commuteGuard", "doc": info.node(d), "a": info.step(l), "b": info.step(r)})
                             gmetas.append((replay, g, dab is not None and dba is not None and dab.eq(dba)))
-                    if n_around == 1 and (isinstance(a, (AddMarkStep, RemoveMarkStep)) or isinstance(b, (AddMarkStep, RemoveMarkStep))):
-                        # `commute_succeeds_around_mark_partial`: the guard with the mark step's range and the open depths
-                        # of the slice it re-marks
-                        l, r = (a, b) if a.to < b.from_ else (b, a)
+                    MARKUP = (AddMarkStep, RemoveMarkStep, AddNodeMarkStep, RemoveNodeMarkStep, AttrStep)
+                    if n_around == 1 and (isinstance(a, MARKUP) or isinstance(b, MARKUP)):
+                        # `commute_succeeds_around_mark_partial` / `commute_succeeds_around_nodeStep_partial`: the guard with the
+                        # mark step's range and the open depths of the slice it re-marks, resp. the one-token range of a
+                        # node-mark / attr step with a closed slice
+                        l, r = (a, b) if span(a)[1] <= span(b)[0] else (b, a)
                         stg, g = outcome(lambda: (lambda l2, r2: (inside_left(d, l2, r2), inside_right(d, l2, r2)))(
                             *(x if isinstance(x, ReplaceAroundStep) else AsReplace(x, d) for x in (l, r))))
                         if stg == "ok":
-                            ctx.count("guard-around-mark:" + ("holds" if (g[0] or g[1]) else "fails"))
+                            other = b if isinstance(a, ReplaceAroundStep) else a
+                            ctx.count("guard-around-%s:" % ("mark" if isinstance(other, (AddMarkStep, RemoveMarkStep)) else "node")
+                                      + ("holds" if (g[0] or g[1]) else "fails"))
                             greqs.append({"op": "commuteGuard", "doc": info.node(d), "a": info.step(l), "b": info.step(r)})
                             gmetas.append((replay, g, dab is not None and dba is not None and dab.eq(dba)))
                     if type(a) is ReplaceStep and type(b) is ReplaceStep:
